@@ -40,6 +40,8 @@ VAR = {
 def preamble(cfg):
     c = VAR[cfg["dict"]](full_cfg(cfg["n"]))
     lines = ["set nodeid %d" % c["n"]]
+    if cfg.get("freq", 1000) != 1000:
+        lines.append("set freq %d" % cfg["freq"])
     if c.get("para"):
         lines.append("para 0 0 4 2 1 1 1 2 3 4")
     for reg, code in c.get("emcy", []):
@@ -76,7 +78,7 @@ def run(ctx):
     ctx.assumptions += [
         "level exploration: the specification (CoChaos) generates the histories, the oracle is instrumentation of the C code (ASan, UBSan incl. array bounds, exact-size heap blocks for dictionary array / object storage / SDO buffer / timer memory / user buffers, CONodeFatalError, 10 s watchdog per behaviour, > 4096 frames per event)",
         "alphabet (~4000 event classes): SDO frames (39 command bytes x 41 multiplexers, both servers, size / block-size / acknowledge boundary values), NMT, SYNC, RPDO / TPDO / EMCY identifiers with DLC 0..8, heartbeats, all LSS command specifiers incl. activate bit timing, SDO client answers, random identifiers; ticks, service / process split, empty and failing CAN reads, failing CAN sends, short NVM counts, and application calls with out-of-range arguments; unconstrained bytes from the seeded PRNG",
-        "dictionaries: a full one (2 SDO servers, client, 4 RPDOs incl. dummies and a synchronous one, 4 TPDOs, 1804h beyond CO_TPDO_N, 1010h/1011h, domains, strings, 32-entry EMCY table) and variants lacking one optional group each; builds: CO_SSDO_N = 1 and 2, and the 3-segment H0 variant",
+        "dictionaries: a full one (2 SDO servers, client, 4 RPDOs incl. dummies and a synchronous one, 4 TPDOs, 1804h beyond CO_TPDO_N, 1010h/1011h, domains, strings, 32-entry EMCY table) and variants lacking one optional group each; builds: CO_SSDO_N = 1 and 2, and the 3-segment H0 variant; timer frequency 1 kHz in 60 % of the histories, else one of 0, 1, 7, 300, 1500, 1 MHz, 2^32-1 Hz",
         "one quarter of the walks is replayed a second time with one event pumped 300 times",
         "in-struct overruns that stay inside CO_NODE are invisible to the sanitizers: those are owned by the behavioural checks (C12 for 18xxh:5)",
     ]
@@ -97,6 +99,12 @@ def run(ctx):
             for st in b.steps:
                 classes.add(json.dumps(st["e"]))
         fill(w, ctx.seed * 1000 + i)
+        # "forall build configurations (..., timer frequency)": the node specification's TmrFreq, incl. 0 (no time base: the
+        # conversion functions guard it) and values that neither divide nor are divided by the time units
+        frnd = random.Random(ctx.seed * 77 + i)
+        for b in w:
+            if frnd.random() < 0.4:
+                b.cfg = dict(b.cfg, freq=frnd.choice([0, 0, 1, 7, 300, 1500, 1000000, 4294967295]))
         w = w + pumped(w, ctx.seed + i)
         for variant in (["n1", "n2"] if q else ["n1", "n2", "h0"]):
             ctx.replay(w, common.wrap(preamble), lambda it: False, variant=variant, defines=VARIANTS[variant], ordered=False, label="%s_%s" % (dn, variant), safety_only=True)
